@@ -339,7 +339,12 @@ func genCaseA(t *rapid.T) caseA {
 	default:
 		// prefixes that are not the beginning of any path the backend could hold: plain strings for the
 		// listing rules (nothing, or whatever literally starts with them, matches)
-		c.Prefix = rapid.SampledFrom([]string{"/", "//", "/a/", "./", "../", "a//", "/" + sub("odd_a"), sub("odd_b") + "//", sub("odd_c") + "/./", sub("odd_d") + "/../"}).Draw(t, "prefix_odd")
+		c.Prefix = rapid.SampledFrom([]string{"/", "//", "/a/", "./", "../", "a//", "/" + sub("odd_a"), sub("odd_b") + "//", sub("odd_c") + "/./", sub("odd_d") + "/../",
+			// ... and prefixes into the backend's bookkeeping directory (nothing there is a key)
+			tmpDir, tmpDir + "/", tmpDir + "/multipart/", tmpDir + "/multipart/ab/", tmpDir + "/multipart/ab/cd/", tmpDir + "/x"}).Draw(t, "prefix_odd")
+		if strings.HasPrefix(c.Prefix, tmpDir) {
+			c.Tmp = []string{"multipart/ab/cd/1", "x"}
+		}
 	}
 	c.Delimiter = rapid.SampledFrom([]string{"", "/", "/", "/", "-", ".", "a/", "ab", "~", "a", "é", " "}).Draw(t, "delimiter")
 	switch rapid.IntRange(0, 7).Draw(t, "marker_kind") {
